@@ -8,6 +8,7 @@
   positions, pair-coefficient text — see `Env`).
 -/
 import MofunModel.Proofs.CliRunLemmas
+import MofunModel.Props.C20
 
 namespace Mofun.Cli
 
@@ -55,6 +56,17 @@ theorem run_ok_iff_api_ok (env : Env) (o : Options) (out : Output) :
   rcases run_eq_api env o with h | ⟨⟨e1, h1⟩, ⟨e2, h2⟩⟩
   · rw [h]
   · rw [h1, h2]; constructor <;> intro h <;> cases h
+
+/-- **mic_never_rejected.**  The minimum-image factors are at least 1 in every direction, whatever the cutoff (zero and
+    negative cutoffs included): the replication they are handed to never refuses them — on an orthorhombic cell with
+    positive lengths the minimum-image step is exactly `replicate` by those factors. -/
+theorem mic_never_rejected (a : Atoms) (M : Mat3) (mic : Rat) (hc : a.cell = some M) (ho : M.isOrtho = true)
+    (hpos : 0 < M.a.x ∧ 0 < M.b.y ∧ 0 < M.c.z) :
+    micStep a mic = a.replicate (micDims mic (diagOf M)).1.toNat (micDims mic (diagOf M)).2.1.toNat
+      (micDims mic (diagOf M)).2.2.toNat := by
+  have h := mic_dims_spec mic (diagOf M) hpos.1 hpos.2.1 hpos.2.2
+  unfold micStep
+  simp only [hc, ho, ↓reduceIte, hpos, and_self, replicateInt, h.1]
 
 /-! ## sequencing, on the executed plan -/
 
